@@ -319,6 +319,9 @@ let nth_perm (l : 'a list) (idx : int) : 'a list =
         x :: go (List.filteri (fun i _ -> i <> q) l) r in
   go l idx
 
+(* the order of the optimiser's ordered maps is Model/Order.v's rust_ord (extracted) *)
+let all_orders = ref false
+
 let leaf_budget = ref 720
 
 let explore (run : (n list list -> n list list) -> 'a) : 'a list * bool =
@@ -404,7 +407,8 @@ let run_case (x : sx) : unit =
                | None -> add "(none)") (lst keys)
        | _ -> raise (Parse_error "find: object expected"));
       add ")"
-  | L [A "rule"; id; y; docs; sws; L [f_reads; f_validate; f_trees]; o] ->
+  | L [A "rule"; id; y; docs; sws; L (f_reads :: f_validate :: f_trees :: f_more); o] ->
+      let want_otrees = (match f_more with [x] -> dec_bool x | _ -> false) in
       let o = dec_oracle o in
       let y = dec_yaml y in
       (* top-level keys must be strings: serde's derived field visitor also accepts integer
@@ -464,7 +468,7 @@ let run_case (x : sx) : unit =
                              end
                            end) docs);
                   (Buffer.contents rb, Buffer.contents kb) in
-                let (outs, complete) = explore run in
+                let (outs, complete) = if !all_orders then explore run else ([run rust_ord], true) in
                 let uniq l = List.sort_uniq compare l in
                 let rs = uniq (List.map fst outs) and ks = uniq (List.map snd outs) in
                 (match rs with
@@ -482,6 +486,19 @@ let run_case (x : sx) : unit =
                        Buffer.add_string reads_parts ")")) sws;
             add (Buffer.contents res_parts);
             add (Buffer.contents reads_parts);
+            if want_otrees then
+              List.iter (fun sw ->
+                  let sws = { sw_coalesce = sw land 1 <> 0; sw_shake = sw land 2 <> 0;
+                              sw_rewrite = sw land 4 <> 0; sw_matrix = sw land 8 <> 0 } in
+                  add (Printf.sprintf " (otree %d" sw);
+                  (match optimise o rust_ord sws r with
+                   | Ok r' ->
+                       add " (cond "; p_expr r'.r_det.d_expr; add ") (ids";
+                       let ids = List.sort (fun (a, _) (b, _) -> compare_str a b) r'.r_det.d_ids in
+                       List.iter (fun (k, e) -> add " ("; p_str k; add " "; p_expr e; add ")") ids;
+                       add ")"
+                   | _ -> add " x");
+                  add ")") sws;
             if !want_known then begin
               (* model-only extra, stripped by the orchestrator before the line diff *)
               let kb = Buffer.create 64 in
@@ -498,7 +515,7 @@ let run_case (x : sx) : unit =
                               | _ -> [])
                          | None -> [])
                     | _ -> [] in
-                  let cls = known_classes o (fun k -> k) sws r.r_det
+                  let cls = known_classes o rust_ord sws r.r_det
                             @ (if known_d10 r.r_det then [n_of_int 10] else [])
                             @ (if known_d24 raw r.r_det then [n_of_int 24] else []) in
                   Buffer.add_string kb (Printf.sprintf " (%d" sw);
@@ -562,7 +579,7 @@ let case_id (x : sx) : string =
   | _ -> "?"
 
 let () =
-  Array.iter (fun a -> if a = "--ic" then ic := true; if a = "--known" then want_known := true; if a = "--spec" then want_spec := true) Sys.argv;
+  Array.iter (fun a -> if a = "--ic" then ic := true; if a = "--known" then want_known := true; if a = "--all-orders" then all_orders := true; if a = "--spec" then want_spec := true) Sys.argv;
   let out = stdout in
   (try
      while true do
